@@ -54,6 +54,8 @@
 #![cfg_attr(docsrs, feature(doc_cfg, doc_auto_cfg))]
 
 mod connection;
+#[cfg(libp2p_verif)]
+pub use connection::verif_hooks;
 mod executor;
 mod stream;
 mod stream_protocol;
